@@ -63,8 +63,51 @@ class _Subst(ast.NodeTransformer):
             return clone(v)
         return node
 
+    def visit_Attribute(self, node):
+        # attribute state is tracked only when the enumerator was asked to (keys contain a dot)
+        if isinstance(node.ctx, ast.Load):
+            try:
+                key = ast.unparse(node)
+            except Exception:  # pragma: no cover
+                key = None
+            if key in self.env and self.env[key] is not None:
+                return clone(self.env[key])
+        self.generic_visit(node)
+        return node
+
     def visit_Lambda(self, node):
         return node
+
+
+def trivial(e, pol=True):
+    """Truth of a literal made of constants only (after substitution), else None: `None is None`,
+    `False`, `not True`, `1 == 2` ...  Used to prune paths whose condition is decided by an earlier
+    assignment on the same path."""
+    if isinstance(e, ast.Constant):
+        return bool(e.value) == pol
+    if isinstance(e, ast.UnaryOp) and isinstance(e.op, ast.Not):
+        return trivial(e.operand, not pol)
+    if isinstance(e, ast.Compare) and len(e.ops) == 1 and isinstance(e.left, ast.Constant) and isinstance(e.comparators[0], ast.Constant):
+        a, b = e.left.value, e.comparators[0].value
+        op = e.ops[0]
+        r = None
+        if isinstance(op, (ast.Is, ast.Eq)):
+            r = (a is b) if isinstance(op, ast.Is) and (a is None or b is None or isinstance(a, bool) or isinstance(b, bool)) else (a == b)
+        elif isinstance(op, (ast.IsNot, ast.NotEq)):
+            r = not ((a is b) if isinstance(op, ast.IsNot) and (a is None or b is None or isinstance(a, bool) or isinstance(b, bool)) else (a == b))
+        if r is not None:
+            return r == pol
+    # a module-level sentinel compared with a constant: `_PIPE_ERR is None` cannot hold
+    if isinstance(e, ast.Compare) and len(e.ops) == 1 and isinstance(e.ops[0], (ast.Is, ast.IsNot)):
+        l, r_ = e.left, e.comparators[0]
+        if isinstance(l, ast.Name) and isinstance(r_, ast.Name) and l.id == r_.id:
+            return isinstance(e.ops[0], ast.Is) == pol
+    return None
+
+
+def feasible(path):
+    """False when a condition on the path is decided the other way by constants"""
+    return not any(trivial(e, pol) is False for e, pol in path.conds)
 
 
 def subst(expr, env):
@@ -90,8 +133,16 @@ def _assign(env, target, value_sub):
             for i, t in enumerate(target.elts):
                 _assign(env, t, ast.Subscript(value=value_sub, slice=ast.Constant(value=i), ctx=ast.Load()))
     else:
-        # attribute / subscript stores are effects, not tracked
-        pass
+        # attribute / subscript stores are effects; their value is tracked under the target's text when asked to
+        if env.get("<track-attrs>") is not None and isinstance(target, ast.Attribute):
+            try:
+                env[ast.unparse(target)] = value_sub
+            except Exception:  # pragma: no cover
+                pass
+    if isinstance(target, ast.Name):
+        pre = target.id + "."
+        for k_ in [k_ for k_ in env if k_.startswith(pre)]:
+            del env[k_]
 
 
 def branches(test, polarity):
@@ -132,9 +183,13 @@ def normalise(test, polarity):
     return (test, polarity)
 
 
-def paths(fn, max_paths=4096, loops="error"):
+def paths(fn, max_paths=4096, loops="error", stores=False):
+    """``stores=True``: attribute/subscript stores are recorded among the effects (as ast.Assign with
+    substituted target and value) and attribute values are substituted forward like locals."""
     body = fn.body if isinstance(fn, FuncTypes) else list(fn)
     out = []
+    inl_stack = []
+    env0 = {"<track-attrs>": ast.Constant(value=True)} if stores else {}
 
     def run(stmts, conds, env, effects, k):
         """k(conds, env, effects) continues after the block on fall-through."""
@@ -151,6 +206,12 @@ def paths(fn, max_paths=4096, loops="error"):
         if isinstance(s, ast.Assign):
             v = subst(s.value, env)
             env = dict(env)
+            if stores:
+                for t in s.targets:
+                    if isinstance(t, (ast.Attribute, ast.Subscript)):
+                        st_ = ast.Assign(targets=[t], value=v, type_comment=None)
+                        ast.copy_location(st_, s)
+                        effects = effects + [st_]
             for t in s.targets:
                 _assign(env, t, v)
             return nxt(conds, env, effects)
@@ -175,6 +236,11 @@ def paths(fn, max_paths=4096, loops="error"):
         if isinstance(s, ast.Return):
             out.append(Path(conds, "return", subst(s.value, env), env, effects, s))
             return
+        if isinstance(s, ast.Raise) and isinstance(s.exc, ast.Name) and s.exc.id == "__xv_return__":
+            # end of an expanded helper (engine/inline.py): continue after its block
+            if not inl_stack:
+                raise AnalysisError("decision table: inline return outside an inline block")
+            return inl_stack[-1](conds, env, effects)
         if isinstance(s, ast.Raise):
             out.append(Path(conds, "raise", subst(s.exc, env), env, effects, s))
             return
@@ -200,6 +266,20 @@ def paths(fn, max_paths=4096, loops="error"):
                 hc = conds + [(ast.Name(id=f"<exception:{unparse(h.type) if h.type else 'any'}>", ctx=ast.Load()), True)]
                 run(h.body + fin, hc, env, effects, nxt)
             return
+        if isinstance(s, ast.With) and len(s.items) == 1 and isinstance(s.items[0].context_expr, ast.Name) and s.items[0].context_expr.id == "__xv_inline__":
+
+            def after(c, e, f):
+                saved = inl_stack.pop()  # the block is left
+                try:
+                    return run(rest, c, e, f, k)
+                finally:
+                    inl_stack.append(saved)
+
+            inl_stack.append(after)
+            try:
+                return run(s.body, conds, env, effects, after)
+            finally:
+                inl_stack.pop()
         if isinstance(s, (ast.With, ast.AsyncWith)):
             env = dict(env)
             for it in s.items:
@@ -222,7 +302,7 @@ def paths(fn, max_paths=4096, loops="error"):
     def fall(c, e, f):
         out.append(Path(c, "fall", None, e, f))
 
-    run(body, [], {}, [], fall)
+    run(body, [], env0, [], fall)
     return out
 
 
